@@ -135,15 +135,26 @@ func (ctx Context) createFirstLinePango(layout *text.TextLayoutPango,
 
 		runDst := &output.Runs[len(output.Runs)-1]
 
-		// Positions of the glyphs in the UTF-8 string
-		utf8Positions := make([]int, len(glyphString.Glyphs)-1)
-		for i := range utf8Positions {
-			utf8Positions[i] = offset + glyphString.LogClusters[i+1]
+		// Positions of the glyphs in the text : the glyph i stands for the characters
+		// from its cluster to the next one in logical order, which is the cluster of
+		// the following glyph in a left-to-right run, of the previous one in a right-to-left run
+		// (where the clusters are in decreasing order)
+		isRTL := glyphItem.Item.Analysis.Level%2 == 1
+		nbGlyphs := len(glyphString.Glyphs)
+		textRange := func(i int) (start, end int) {
+			start, end = offset+glyphString.LogClusters[i], offset+glyphItem.Item.Length
+			if isRTL && i != 0 {
+				end = offset + glyphString.LogClusters[i-1]
+			} else if !isRTL && i != nbGlyphs-1 {
+				end = offset + glyphString.LogClusters[i+1]
+			}
+			if end < start {
+				end = start
+			}
+			return start, end
 		}
-		utf8Positions = append(utf8Positions, offset+glyphItem.Item.Length)
 
 		runDst.Glyphs = make([]backend.TextGlyph, len(glyphString.Glyphs))
-		var prevUtf8Position int
 		for i, glyphInfo := range glyphString.Glyphs {
 			outGlyph := &runDst.Glyphs[i]
 			width := glyphInfo.Geometry.Width
@@ -187,12 +198,11 @@ func (ctx Context) createFirstLinePango(layout *text.TextLayoutPango,
 			outGlyph.Kerning = int(pr.Fl(outFont.Extents[outGlyph.Glyph].Width) - text.PangoUnitsToFloat(width*1000)/fontSize + outGlyph.Offset)
 
 			// Mapping between glyphs and characters
-			utf8Position := utf8Positions[i]
-			outGlyph.TextOffset, outGlyph.TextLength = prevUtf8Position, utf8Position-prevUtf8Position
+			start, end := textRange(i)
+			outGlyph.TextOffset, outGlyph.TextLength = start, end-start
 			if _, in := outFont.Cmap[outGlyph.Glyph]; !in {
-				outFont.Cmap[outGlyph.Glyph] = textRunes[prevUtf8Position:utf8Position]
+				outFont.Cmap[outGlyph.Glyph] = textRunes[start:end]
 			}
-			prevUtf8Position = utf8Position
 
 			// advance
 			outGlyph.XAdvance = xAdvance
